@@ -409,6 +409,26 @@ impl Mon {
         }
     }
 
+    /// C03 / C05, any schedule: the step the sweeper makes from in front of a due key is atomic (it reads
+    /// the stored deadline and, if it finds it passed, releases the key's charge before its next
+    /// scheduling point).  A charge released in that step therefore tells which entry the sweeper
+    /// decided to reclaim: the entry as it was before the step must have a deadline, and it must have passed.
+    pub fn sweep_decision(&mut self, before: &CacheSnap<u64>, after: &CacheSnap<u64>, now: u64) {
+        for (k, _) in &before.policy.key_costs {
+            if after.policy.key_costs.iter().any(|(x, _)| x == k) {
+                continue;
+            }
+            if let Some(e) = Self::entry(before, *k) {
+                if e.ttl_ns == 0 {
+                    self.hit("C03", format!("key {} was written without TTL (value {}) and the expiry sweep decided to reclaim it at {}", e.index, e.value, now));
+                    self.hit("C05", format!("cleanup reclaims key {} which has no TTL (value {})", e.index, e.value));
+                } else if now < e.created_ns + e.ttl_ns {
+                    self.hit("C05", format!("cleanup reclaims key {} {} ns before its TTL elapses", e.index, e.created_ns + e.ttl_ns - now));
+                }
+            }
+        }
+    }
+
     pub fn tick_started(&mut self, now: u64) {
         self.in_tick = true;
         self.tick_time = now;
